@@ -135,15 +135,18 @@ PROPS = {
         "runs": [distr("", 320, 12000)],
         "preds": ["C03."],
         "rule": DISTR_RULE,
-        "partial": ["the theorems are per mechanism (MAIN inflow = balance - books; internal re-queue; StartDistributionProcess books exactly the inflow; "
-                    "payout moves books and balance together); their composition into 'Books after every block' for every validated configuration "
-                    "outside K1/K2 is not yet one Coq theorem: it is checked on every run through the implementation's two registered invariants "
-                    "and a conservation equation, and by the model correspondence"],
-        "level_text": "Coq theorems, pointwise per denomination over the executable distributor model: the MAIN-source inflow is exactly balance minus "
-                      "recorded remains; an internal source re-queues exactly its remains; one StartDistributionProcess books exactly its events, "
-                      "which never exceed and (non-MAIN primary) equal the inflow; a payout removes the integer part from books and main balance "
-                      "together. K1 refuted by a computed witness. Model compared with the real BeginBlocker after every block; the real "
-                      "invariant functions are evaluated on the implementation.",
+        "partial": ["the hypotheses of the history theorem that are not consequences of validation are the two known-finding classes (sources in order = not K1, "
+                    "no alias of the main account = not K2) and the store-key discipline (keys determine ids, computed by the harness from the real key strings); "
+                    "external inflows are modelled as non-negative coins arriving between blocks"],
+        "level_text": "Coq theorems over the executable distributor model. History level (C03_books_equal_balance_after_every_block, Books.history_keeps_books): "
+                      "for every world satisfying the invariant (well-formed non-negative remains and balances, states stored in key order under their account's key, "
+                      "share fractions adding up to at most 1, MAIN first among the sources of its sub-distributor, no alias of the main account, books not above the "
+                      "main balance), every sequence of inflows and blocks with ANY pattern of failing bank calls: no block panics and after every block the sum of "
+                      "all recorded remains equals the main account's balance per denomination. The configuration hypotheses follow from Params.Validate "
+                      "(C03_validated_configuration_books_everything: shares in range; 'last occurrence of MAIN is a source' makes everything booked). "
+                      "Mechanism level: MAIN inflow = balance - books; internal re-queue; one StartDistributionProcess books exactly its events; a payout removes "
+                      "the integer part from books and main balance together. K1 refuted by a computed witness. Model compared with the real BeginBlocker after "
+                      "every block; the module's registered invariants are evaluated on the implementation.",
     },
     "C04": {
         "title": "Every destination receives exactly its configured share",
@@ -185,7 +188,7 @@ PROPS = {
         "partial": ["'made up later up to one base unit' across blocks is checked against a fault-free twin on every run; in Coq: a failed payout keeps "
                     "the full remains, a failed call with sufficient funds leaves the bank untouched, a failed sweep contributes nothing, the retry "
                     "pays the accumulated integer part"],
-        "level_text": "Coq theorems over the fault-oracle bank: a failed payout or burn leaves the state's remains intact; a failed call that is not an "
+        "level_text": "Coq theorems over the fault-oracle bank: (history level, C14_books_hold_whatever_fails) for every pattern of failing sweeps, payouts and burns over histories of any length the recorded remains add up to exactly the main balance after every block - nothing that failed to leave is forgotten; a failed payout or burn leaves the state's remains intact; a failed call that is not an "
                       "insufficient-funds failure leaves the bank unchanged; a failed sweep contributes no inflow and keeps books+inflow constant; "
                       "a later successful payout pays exactly the accumulated integer part. The real keeper runs over a fault-injecting BankKeeper; "
                       "the registered invariants are evaluated after every block and final balances compared with a fault-free twin.",
